@@ -2,4 +2,4 @@
 Require Import CoStream.
 Require Extraction.
 Require Import ExtrOcamlBasic.
-Extraction "../runner/costream.ml" CoStream.run CoStream.init.
+Extraction "../runner/costream.ml" CoStream.run CoStream.init CoStream.settled.
